@@ -10,10 +10,20 @@ Helper lemmas: `Proofs/Delaney2dFrac.lean` (fractions ↔ ℚ), `Proofs/Delaney2
 `Proofs/Delaney2dSum.lean` (dihedral orbit size, `orbit_reps_2d`, the chamber sum; these use
 the C02 theorems about `View.orbit`, `collect_orbits` and the table-based `r`, `v`).
 
-Not theorems (see `open_obligations` in conf/C08.json): Gauss–Bonnet for the model
-(`curvature = 2·orbifoldChi (orbifoldSymbol ds)`, i.e. correctness of the boundary tracing)
-and the invariance of the model's orbifold symbol — their conclusions are Spec clauses
-evaluated on the implementation's answers for every explored symbol.
+`Proofs/Delaney2dConstr.lean` (iso / dual / cover constructions, using C03 and C05),
+`Proofs/Delaney2dCover.lean` (cone census of the oriented cover, `is_spherical`),
+`Proofs/DihedralLoops.lean`, `Proofs/Delaney2dGauss.lean` (mirror ends, edge count, K side of
+Gauss–Bonnet, the monitor), `Proofs/DihedralWalk.lean`, `Proofs/Delaney2dOpposite.lean`,
+`Proofs/Delaney2dDarts.lean`, `Proofs/Delaney2dTrace.lean`, `Proofs/Delaney2dBoundary.lean`,
+`Proofs/Delaney2dCorners.lean` (`opposite`, boundary darts, `trace_boundary` is exact),
+`Proofs/Delaney2dComponents.lean`, `Proofs/Delaney2dMorphism.lean`, `Proofs/Delaney2dMatch.lean`,
+`Proofs/Delaney2dInvariance.lean`, `Proofs/Delaney2dCensusInv.lean`,
+`Proofs/Delaney2dSymbolInv.lean`, `Proofs/Delaney2dSpecLink.lean` (invariance of the symbol).
+
+Not a theorem (see `open_obligations` in conf/C08.json): Gauss–Bonnet for the model without the
+decidable monitor `genusMonitor` (evenness of `2 − χ` for orientable symbols and "closed without
+cross-cap ⇔ oriented": surface topology) — its conclusion is a Spec clause evaluated on the
+implementation's answers, and the monitor is evaluated on the model, for every explored symbol.
 -/
 import DSymVerif.Proofs.Delaney2dGeom
 import DSymVerif.Proofs.Delaney2dChi
@@ -24,6 +34,7 @@ import DSymVerif.Proofs.Delaney2dConstr
 import DSymVerif.Proofs.Delaney2dCover
 import DSymVerif.Proofs.Delaney2dGauss
 import DSymVerif.Proofs.Delaney2dCorners
+import DSymVerif.Proofs.Delaney2dSpecLink
 
 namespace DSymVerif.C08
 open DSymVerif.DS DSymVerif.D2 DSymVerif.SpecC08
@@ -575,15 +586,34 @@ theorem symbolExact_implies_genusMonitor (s : Sym) (hex : symbolExact s = true) 
     genusMonitor s = true :=
   genus_of_symbolExact hex
 
-/-- **Gauss–Bonnet for the model, under the genus monitor**: K = 2·χ(orbifold symbol), χ the
-    Spec's `orbifoldChi` (`chiQ`) of the model's own orbifold symbol.  The premise only concerns
-    the handle / cross-cap bookkeeping (evenness of `2 − χ` for orientable symbols; closed without
-    cross-cap ⇔ oriented); the correctness of the boundary tracing is a theorem. -/
-theorem gauss_bonnet_conditional (s : Sym) (g : Good2d s) (hmon : genusMonitor s = true) :
+/-- **Gauss–Bonnet for the model, under the parity monitor**: K = 2·χ(orbifold symbol), χ the
+    Spec's `orbifoldChi` (`chiQ`) of the model's own orbifold symbol.  The only premise is
+    `D2.parityMonitor`: an *orientable* symbol has an even `2 − χ_top − #boundaries`, so that the
+    `x / 2` handles of the code lose nothing (implied by `genusMonitor`, hence by `symbolExact`,
+    which the driver evaluates on every explored symbol); everything else — cone census,
+    correctness of the boundary tracing, edge count — is a theorem. -/
+theorem gauss_bonnet_conditional (s : Sym) (g : Good2d s) (hmon : parityMonitor s = true) :
     ∃ K o, curvature s = .ok K ∧ orbifoldSymbol s = .ok o ∧ K.toRat = 2 * chiQ (orbOf o) := by
-  obtain ⟨o, hx⟩ := symbolExact_of_genus g hmon
-  obtain ⟨K, hK, hv⟩ := gauss_bonnet_exact g hx
+  obtain ⟨o, hx⟩ := symbolCensus_of_parity g hmon
+  obtain ⟨K, hK, hv⟩ := gauss_bonnet_census g hx
   exact ⟨K, o, hK, hx.sym, hv⟩
+
+example : parityMonitor ex632 = true := by decide +kernel
+
+/-- **Gauss–Bonnet for non-orientable symbols, unconditionally**: whenever `orbifold_symbol`
+    answers a symbol with cross-caps (`x…`), the curvature is twice its Euler characteristic. -/
+theorem gauss_bonnet_nonorientable (s : Sym) (g : Good2d s) (o : OrbSym)
+    (hos : orbifoldSymbol s = .ok o) (hno : o.orientable = false) :
+    ∃ K, curvature s = .ok K ∧ K.toRat = 2 * chiQ (orbOf o) := by
+  obtain ⟨K, o', hK, ho', hv⟩ := gauss_bonnet_conditional s g (parity_of_nonorientable g hos hno)
+  rw [hos] at ho'
+  cases ho'
+  exact ⟨K, hK, hv⟩
+
+/-- the monitors: `symbolExact ⇒ genusMonitor ⇒ parityMonitor` -/
+theorem monitors_chain (s : Sym) :
+    (symbolExact s = true → genusMonitor s = true) ∧ (genusMonitor s = true → parityMonitor s = true) :=
+  ⟨genus_of_symbolExact, parity_of_genus⟩
 
 /-- **the third sentence of the property in the Spec's own terms, under the genus monitor**:
     `is_spherical` ⇔ K > 0 ∧ ¬ `SpecC08.bad` (model's orbifold symbol). -/
@@ -594,6 +624,66 @@ theorem isSpherical_iff_spec_conditional (s : Sym) (g : Good2d s) (hsz : 1 ≤ s
   obtain ⟨o, hx⟩ := symbolExact_of_genus g hmon
   obtain ⟨K, hK, hv, hs⟩ := isSpherical_spec g hsz hx
   exact ⟨K, o, hK, hx.sym, hv, hs⟩
+
+/-! ### 10. the orbifold symbol is invariant under renumbering and dualisation -/
+
+/-- **the traces of `trace_boundary` are the boundary components.**  For every valid 2D symbol the
+    run of `trace_boundary` is recorded by a list of closed boundary walks (start dart, length):
+    one dart at every mirror end is marked, the marked darts are exactly the darts of these
+    walks, and the returned list is — up to `sort` — `best_cyclic` of the corner words read along
+    them.  Every valid dart lies, possibly reversed, on exactly one of these walks, and its own
+    closed walk reads the same corner word up to rotation and reversal. -/
+theorem trace_boundary_components (y : DSymData) (h : ValidSym y) (hdim : y.dim = 2) (rep : Rep) :
+    ∃ bnds starts, traceBoundary ⟨y, rep⟩ = .ok bnds ∧ TraceRecord y bnds starts ∧
+      (∀ δ, ValidDart y δ → ∃ p ∈ starts, ∃ k, k < p.2 ∧
+        (δ = (phi y)^[k] p.1 ∨ δ = rho ((phi y)^[k] p.1)) ∧
+        IsWalk y δ p.2 ∧ CycEq (seqOf y p.1 p.2) (seqOf y δ p.2)) := by
+  obtain ⟨bnds, starts, hb, T⟩ := traceRecord_exists h hdim rep
+  refine ⟨bnds, starts, hb, T, ?_⟩
+  intro δ hδ
+  obtain ⟨p, hp, k, hk, hrel⟩ := T.lookup hδ
+  obtain ⟨w, hc⟩ := word_of_related h hdim (T.isWalk hp) hrel
+  exact ⟨p, hp, k, hk, hrel, w, hc⟩
+
+example : ValidSym exData ∧ exData.dim = 2 := ⟨exData_valid, by decide +kernel⟩
+
+/-- **invariance under renumbering.**  If `b` is isomorphic to the good 2D symbol `a` in the
+    sense of C03 (`IsIso`; in particular every renumbering, e.g. the library's `rebuild`) and
+    `orbifold_symbol` answers `oa` on `a`, then it answers on `b` (either representation) a
+    symbol `ob` with the same cones, the same orientability and handle / cross-cap count, and
+    boundary components that agree with those of `oa` as a multiset of corner cycles modulo
+    rotation and reversal (`BndsEq`) — in the Spec's terms `sameOrbifold oa ob`. -/
+theorem orbifold_symbol_invariant_iso (a b : DSymData) (f : Nat → Nat) (iso : CanonP.IsIso f a b)
+    (ra rb : Rep) (ga : Good2d ⟨a, ra⟩) (hb : ValidSym b) (oa : OrbSym)
+    (ha : orbifoldSymbol ⟨a, ra⟩ = .ok oa) :
+    ∃ ob, orbifoldSymbol ⟨b, rb⟩ = .ok ob ∧ ob.cones = oa.cones ∧ BndsEq oa.bnds ob.bnds ∧
+      ob.orientable = oa.orientable ∧ ob.count = oa.count ∧
+      sameOrbifold (orbOf oa) (orbOf ob) = true := by
+  have m := mor_of_iso iso ga.valid hb ga.dim
+  exact m.sameOrbifold ra rb ga.complete (iso_complete iso ga.valid hb ga.complete) ha
+
+example : (orbifoldSymbol ex632).isOk = true := by decide +kernel
+
+/-- **invariance under dualisation.**  The model of `derived::dual` returns a good 2D symbol `t`
+    on which `orbifold_symbol` answers the same symbol in the same sense. -/
+theorem orbifold_symbol_invariant_dual (s : DSymData) (rs rt : Rep) (g : Good2d ⟨s, rs⟩)
+    (hsz : 1 ≤ s.size) (os : OrbSym) (hs : orbifoldSymbol ⟨s, rs⟩ = .ok os) :
+    ∃ t ot, dual s = .ok t ∧ Good2d ⟨t, rt⟩ ∧ orbifoldSymbol ⟨t, rt⟩ = .ok ot ∧
+      ot.cones = os.cones ∧ BndsEq os.bnds ot.bnds ∧ ot.orientable = os.orientable ∧
+      ot.count = os.count ∧ sameOrbifold (orbOf os) (orbOf ot) = true := by
+  obtain ⟨t, ht, gt, _⟩ := curvature_of_dual rs rt g hsz
+  have m := mor_of_dual g.valid g.dim hsz ht
+  obtain ⟨ot, h1, h2, h3, h4, h5, h6⟩ := m.sameOrbifold rs rt g.complete gt.complete hs
+  exact ⟨t, ot, ht, gt, h1, h2, h3, h4, h5, h6⟩
+
+example : Good2d ex632 ∧ 1 ≤ exData.size := ⟨ex632_good, by decide +kernel⟩
+
+/-- the relation `BndsEq` between boundary lists is the Spec's `multisetEq cycEquiv`, and
+    `cycEquiv` is "equal up to rotation and reversal" -/
+theorem bndsEq_is_spec (X Y : List (List Nat)) (u w : List Nat) :
+    (cycEquiv u w = true ↔ (u ~r w ∨ u.reverse ~r w)) ∧
+    (BndsEq X Y → multisetEq cycEquiv X Y = true) :=
+  ⟨cycEquiv_iff u w, multisetEq_of_bndsEq⟩
 
 /-! ### open (not theorems): the statements, for the record -/
 
